@@ -46,8 +46,15 @@ E(fam, name, ro, rw, is, opts, modes, alias) ==
 A(name, ro, rw, is, opts, modes, alias) == E("alg", name, ro, rw, is, opts, modes, alias)
 
 NoIS == {"none"}
-Buf  == {"none", "buffers"}
-BufA == {"none", "buffers", "alias"}
+Buf  == {"none", "buffers", "reuse"}
+BufA == {"none", "buffers", "reuse", "alias"}
+(* mode "reuse": the caller hands ONE work-space structure (InSitu, initially without buffers, *)
+(* flags such as InitializeH set) to two consecutive calls with different inputs.  A work-space *)
+(* object passed as an option does not retain references to the caller's inputs: after the      *)
+(* second call the inputs of the FIRST call (roles prev.<r>) are unchanged too, and after every *)
+(* call the storage reachable from the work-space structure (role IS) is disjoint from the      *)
+(* storage of every input (unless the caller aliased them, mode "alias").                       *)
+PrevName == [A |-> "prev.A", b |-> "prev.b", a |-> "prev.a", matrix |-> "prev.matrix", x |-> "prev.x"]
 GivensKernel(name) == A(name, <<"c", "s">>, <<"A", "t1", "t2">>, <<>>, <<>>, NoIS, "")
 Optimizer(name, ro, opts) == A(name, ro, <<>>, <<>>, opts, NoIS, "")
 HCM == <<"Hook", "Constraints", "MaxIterations">>
@@ -135,12 +142,20 @@ EstEntries == {
 MayModify(e, mode) == e.rw \o (IF mode = "none" THEN <<>> ELSE e.is)
                            \o (IF mode = "alias" THEN <<e.alias>> ELSE <<>>)
 MustKeep(e, mode)  == SelectSeq(e.ro, LAMBDA r : mode # "alias" \/ r # e.alias)
+                      \o (IF mode = "reuse" THEN [i \in 1..Len(e.ro) |-> PrevName[e.ro[i]]] ELSE <<>>)
+(* share sets that must be empty after the call *)
+Disjoint(e, mode) ==
+  IF e.fam = "alg" /\ mode \in {"buffers", "reuse", "alias"}
+  THEN LET k == MustKeep(e, mode) IN [i \in 1..Len(k) |-> <<"IS", k[i]>>]
+  ELSE IF e.name \in {"dist.Clone", "dist.CloneRev", "estimator.Clone", "estimator.CloneRev"}
+  THEN << <<"source", "clone">> >>       \* a clone reaches no storage that its source reaches (scratch included)
+  ELSE <<>>
 
 OptVals(e) == {ov \in [{e.opts[i] : i \in 1..Len(e.opts)} -> BOOLEAN] : ValidOpts(e, ov)}
 Case(e, op, m, t, n, sr, sa, sb, ov) ==
   [entry |-> e.name, op |-> op, mode |-> m, elem |-> t, n |-> n, sr |-> sr, sa |-> sa, sb |-> sb,
    opts |-> [i \in 1..Len(e.opts) |-> [o |-> e.opts[i], v |-> ov[e.opts[i]]]],
-   keep |-> MustKeep(e, m), may |-> MayModify(e, m)]
+   keep |-> MustKeep(e, m), may |-> MayModify(e, m), disjoint |-> Disjoint(e, m)]
 
 AlgCases == UNION {{Case(e, "", m, t, n, "-", "-", "-", ov) :
                       m \in e.modes, t \in {"float64", "real64"}, n \in Sizes, ov \in OptVals(e)} : e \in Algorithms}
@@ -170,7 +185,10 @@ Spec == Init /\ [][Next]_vars
 (* every input is in the frame unless the caller opted into in-place work; nothing is both kept and writable *)
 FrameOK ==
   /\ Rng(c.keep) \cap Rng(c.may) = {}
-  /\ c.mode # "alias" => \A e \in AllEntries : e.name = c.entry => Rng(e.ro) = Rng(c.keep)
+  /\ c.mode \notin {"alias", "reuse"} => \A e \in AllEntries : e.name = c.entry => Rng(e.ro) = Rng(c.keep)
+  /\ c.mode = "reuse" => \A e \in AllEntries : e.name = c.entry =>
+        /\ Rng(e.ro) \subseteq Rng(c.keep) /\ Len(c.keep) = 2 * Len(e.ro)
+        /\ Len(c.disjoint) = Len(c.keep)
   /\ c.mode = "none" => \A i \in 1..Len(c.may) : \A e \in AllEntries : e.name = c.entry => c.may[i] \in Rng(e.rw)
 PrintCase == Emit => PrintT(ToJson(c))
 =============================================================================
